@@ -14,7 +14,7 @@ from vlib import ansatzlib, chem, gen, refsim
 from vlib.harness import case_rng
 
 PROPERTY = "C07"
-RULE = ("cases = (molecule, ansatz kind, encoding, ordering) x seeded histories of 4-6 (thorough 12-40) parameter updates drawn from "
+RULE = ("cases = (molecule, ansatz kind, encoding, ordering) x seeded histories of 4-6 (thorough 8-20) parameter updates drawn from "
         "{uniform, |t| up to 8, tiny 1e-9, all zeros, one exact zero, some zeros, repeated value, all negative}; molecules H2, H3+, H3 "
         "(thorough: H4, 3-21G H2, UHF); every built-in ansatz: UCCSD (closed/open/UHF), UCC1, UCC3, UpCCGSD k=1..4, UCCGD, HEA, QMF, "
         "QCC, ILC, VSQS order 1/2 and with navigator, pUCCD, ADAPT with add_operator interleaved, user circuit. distinct = hash(molecule, "
@@ -126,7 +126,7 @@ def run_history(case, ctx):
             return
         probes = {}
         hist = []
-        steps = pr.randint(4, 6) if ctx.tier == "quick" else pr.randint(12, 40 if nvp < 30 else 16)
+        steps = pr.randint(4, 6) if ctx.tier == "quick" else pr.randint(8, 20 if nvp < 30 else 10)
         theta = ansatzlib.rand_params(pr, nvp, pr.choice(["uniform", "zeros", "one_zero", "uniform"]))
         hist.append(["build", theta])
         ans.build_circuit(list(theta)) if kind != "ADAPT" else (ans.build_circuit(list(theta)))
